@@ -663,3 +663,61 @@ def rule_list_recursion(ctx, rep, config="c-lib"):
                           "stack until the list ends -- a description with more than YYMAXDEPTH elements is refused although it follows the documented syntax" % (
                               lhs, " ".join(syms)), where="%s:%d" % (path, ln), witness=["%s:%d" % (path, ln)])
     rep.floor("C11-lists", "recursive productions of the description grammar", n, 5)
+
+
+def rule_nil_number_reserved(ctx, rep, config="c-lib"):
+    rep.rule("C11-nil-number", "in a description the empty node is written `-'; the value YAEP_NIL_TRANSLATION_NUMBER (INT_MAX) that stands for it in the translation array "
+                               "handed to yaep_read_grammar enters that array only as a constant: a NUMBER of the text that is appended to the array is compared with "
+                               "the reserved value first -- otherwise `# x (0 2147483647)' is taken for `# x (0 -)' and a symbol number out of range is accepted")
+    p = ctx.prog(config)
+    f = p.fn("yaep_yyparse")
+    rep.cover(p, [f.name])
+    nil = 2147483647
+    n = 0
+    for mc in f.all_insts():
+        if not mc.is_call() or not (mc.callee or "").startswith("llvm.memcpy") or len(mc.args) < 3:
+            continue
+        dst = loaded_from(f, mc.args[0])
+        if dst is None or dst.root != ("g", "strans"):
+            continue
+        src = resolve_addr(f, mc.args[1])
+        if src.root[0] != "alloca":
+            continue
+        stores = [s_ for s_ in f.all_insts() if s_.op == "store" and resolve_addr(f, s_.ops[1]).root == src.root and f.inst_dominates(s_, mc) or
+                  (s_.op == "store" and resolve_addr(f, s_.ops[1]).root == src.root and s_.block.name in f.reachable_from(f.blocks[0].name) and
+                   mc.block.name in f.reachable_from(s_.block.name) and _same_case(f, s_, mc))]
+        for s_ in stores:
+            if const_int(s_.ops[0]) is not None:
+                continue
+            n += 1
+            key = "yyparse/number-into-translation#%d" % n
+            v = strip_int_casts(f, s_.ops[0])
+            guarded = None
+            for c in f.all_insts():
+                if c.op != "icmp" or not _same_case(f, c, mc):
+                    continue
+                for (x, y) in ((0, 1), (1, 0)):
+                    if const_int(c.ops[y]) in (nil, nil - 1):
+                        o = strip_int_casts(f, c.ops[x])
+                        lo = f.inst(o)
+                        if o == v or (lo is not None and lo.op == "load" and resolve_addr(f, lo.ops[0]).root == src.root):
+                            guarded = c
+            if guarded is not None:
+                rep.ok("C11-nil-number", key, sample={"store": s_.where(), "compared_at": guarded.where()})
+            else:
+                rep.violation("C11-nil-number", key, "a NUMBER of the description is appended to the translation array without being compared with the reserved value "
+                              "INT_MAX: written as 2147483647 it means `-' (the empty node), and `# 2147483647' is the nil translation -- a symbol number out of "
+                              "range is accepted with code 0", where=s_.where(), witness=[s_.where(), mc.where()])
+    rep.floor("C11-nil-number", "numbers of the text appended to the translation array", n, 2)
+
+
+def _same_case(f, a, b):
+    """both instructions belong to one action of the parser: the same `sw.bb' block dominates both (or they share a block)"""
+    if a.block is b.block:
+        return True
+    heads = [bl.name for bl in f.rblocks() if bl.name.startswith("sw.bb")]
+    for h in heads:
+        if f.dominates(h, a.block.name) and f.dominates(h, b.block.name):
+            # and no other case head lies in between
+            return True
+    return False
